@@ -152,7 +152,19 @@ def downward_slot_rule(chk, cid, prog, cfgname):
         n += 1
         r = strip(x.c[1])
         inst = 'init_scoring:order-slot-from-the-top@%d' % n
-        if r.k == 'Unary' and r.a['op'] == '--' and not r.a.get('postfix'):
+        prev_dec = False
+        if r.k == 'Ref':
+            for blk in f.body.walk():
+                if blk.k == 'Block':
+                    for i, st_ in enumerate(blk.c[1:], 1):
+                        if st_ is x or strip(st_) is x:
+                            pv = strip(blk.c[i - 1])
+                            if pv.k == 'Unary' and pv.a['op'] == '--' and strip(pv.c[0]).k == 'Ref' and strip(pv.c[0]).a.get('id') == r.a.get('id'):
+                                prev_dec = True
+                            if pv.k == 'Assign' and pv.a['op'] == '-=' and strip(pv.c[0]).k == 'Ref' and strip(pv.c[0]).a.get('id') == r.a.get('id') \
+                                    and (strip(pv.c[1]).a.get('value') == 1):
+                                prev_dec = True
+        if (r.k == 'Unary' and r.a['op'] == '--' and not r.a.get('postfix')) or prev_dec:
             chk.ok(cid, inst, sample=pretty(x)[:60])
         else:
             chk.violate(cid, inst, loc(f, x), f.name,
